@@ -342,3 +342,53 @@ Example C02_convergence_upwind_nonvacuous :
   (forall c a, In c cells -> In a (active_axes ROps exR3) ->
      nb_homog cells (fun c => (x c - exf1 (exxi c))%R) c (cdn a c) /\ nb_homog cells (fun c => (x c - exf1 (exxi c))%R) c (cup a c)).
 Proof. exact convergence_upwind_hyps_satisfiable. Qed.
+
+(* ---- a third CONVERGENCE theorem: the diffusion scheme on uniform Cartesian grids of ANY dimension (Grid1D / Grid2D / Grid3D), constant
+   d >= 0, no advection, kap >= k0 > 0.  The exact solution e enters through its restrictions g c a to the grid line through the centre
+   of cell c along axis a (parameter 0 at the centre), so that no multivariate calculus is needed; the right-hand side of the discrete
+   equations is kap e - d sum_a g_{c,a}''(0) (= kap e - d Laplace e).  Then  max|x_c - e_c| <= sum_a d max|g_a''''| h_a^2 / 12 / k0:
+   second order in every spacing, with the constant. ---- *)
+From PFV Require Import ConvCartNDThy.
+Theorem C02_convergence_cartesian_nD : forall (m : Mesh ROps) (D u : fvar ROps) (kap x e : cvar ROps) (g : cell -> axis -> R -> R)
+  (cells : list cell) (h M : axis -> R) (d k0' : R),
+  cells <> nil ->
+  (forall c a, In c cells -> In a (active_axes ROps m) -> (1 <= cidx a c <= mN ROps m a)%nat /\ signs_ok m D c a) ->
+  (forall a c, u a c = 0%R) ->
+  (forall a, In a (active_axes ROps m) -> (0 < h a)%R) -> (0 <= d)%R -> (0 < k0')%R -> (forall c, In c cells -> (k0' <= kap c)%R) ->
+  (forall c a, In c cells -> In a (active_axes ROps m) ->
+     mdxf ROps m a (cidx a c) = h a /\ mdxf ROps m a (pred (cidx a c)) = h a /\ mfac ROps m a c = 1%R /\
+     mA ROps m a (cidx a c) = 1%R /\ mA ROps m a (pred (cidx a c)) = 1%R /\ mW ROps m a (cidx a c) = h a /\
+     D a c = d /\ D a (cdn a c) = d) ->
+  (forall c a t k, (k <= 4)%nat -> ex_derive_n (g c a) k t) ->
+  (forall c a t, (Rabs (Derive_n (g c a) 4 t) <= M a)%R) ->
+  (forall c a, In c cells -> In a (active_axes ROps m) ->
+     e (cdn a c) = g c a (0 - h a)%R /\ e c = g c a 0%R /\ e (cup a c) = g c a (0 + h a)%R) ->
+  (forall c, In c cells ->
+     Lrow m D u kap x c = (kap c * e c - rsuml (fun a => d * Derive_n (g c a) 2 0) (active_axes ROps m))%R) ->
+  (forall c a, In c cells -> In a (active_axes ROps m) ->
+     nb_homog cells (fun c => (x c - e c)%R) c (cdn a c) /\ nb_homog cells (fun c => (x c - e c)%R) c (cup a c)) ->
+  forall c, In c cells ->
+    (Rabs (x c - e c) <= rsuml (fun a => d * (M a * (h a * h a) / 12)) (active_axes ROps m) / k0')%R.
+Proof. exact convergence_cartesian_nD. Qed.
+Print Assumptions C02_convergence_cartesian_nD.
+(* its hypotheses are satisfiable in two dimensions (one-cell Grid2D mesh, both axes active, constant field 7) *)
+Example C02_convergence_nD_nonvacuous :
+  let cells := ((1, 1, 0)%nat :: nil) in
+  let e := fun _ : cell => 7%R in
+  cells <> nil /\
+  (forall c a, In c cells -> In a (active_axes ROps exR2) -> (1 <= cidx a c <= mN ROps exR2 a)%nat /\ signs_ok exR2 exD c a) /\
+  (forall a c, exu a c = 0%R) /\
+  (forall a, In a (active_axes ROps exR2) -> (0 < 1)%R) /\
+  (forall c a, In c cells -> In a (active_axes ROps exR2) ->
+     mdxf ROps exR2 a (cidx a c) = 1%R /\ mdxf ROps exR2 a (pred (cidx a c)) = 1%R /\ mfac ROps exR2 a c = 1%R /\
+     mA ROps exR2 a (cidx a c) = 1%R /\ mA ROps exR2 a (pred (cidx a c)) = 1%R /\ mW ROps exR2 a (cidx a c) = 1%R /\
+     exD a c = 1%R /\ exD a (cdn a c) = 1%R) /\
+  (forall c a t k, (k <= 4)%nat -> ex_derive_n (exg c a) k t) /\
+  (forall c a t, (Rabs (Derive_n (exg c a) 4 t) <= 0)%R) /\
+  (forall c a, In c cells -> In a (active_axes ROps exR2) ->
+     e (cdn a c) = exg c a (0 - 1)%R /\ e c = exg c a 0%R /\ e (cup a c) = exg c a (0 + 1)%R) /\
+  (forall c, In c cells ->
+     Lrow exR2 exD exu (fun _ => 1%R) e c = (1 * e c - rsuml (fun a => 1 * Derive_n (exg c a) 2 0) (active_axes ROps exR2))%R) /\
+  (forall c a, In c cells -> In a (active_axes ROps exR2) ->
+     nb_homog cells (fun c => (e c - e c)%R) c (cdn a c) /\ nb_homog cells (fun c => (e c - e c)%R) c (cup a c)).
+Proof. exact convergence_nD_hyps_satisfiable. Qed.
